@@ -12,10 +12,10 @@ def op(k, o=0, v=0, w=0):
 
 
 def prog(pid, fam, tasks, nmutex=0, atomics=(), ncv=0, nrw=0, chans=(), sems=(), barriers=(), nonce=0,
-         maxsteps=0, kinds=None):
+         maxsteps=0, kinds=None, nflags=0):
     return {"id": pid, "fam": fam, "nmutex": nmutex, "atomics": list(atomics), "ncv": ncv, "nrw": nrw,
             "chans": list(chans), "sems": [{"n": n, "fair": f} for (n, f) in sems],
-            "barriers": list(barriers), "nonce": nonce,
+            "barriers": list(barriers), "nonce": nonce, "nflags": nflags,
             "kinds": kinds or ["thread"] * len(tasks), "tasks": tasks, "maxsteps": maxsteps,
             "tls_touch": [-1, -1], "tls_yield": [0, 0]}
 
@@ -243,6 +243,95 @@ def gen_mpsc(count, seed, drops=False, first_id=2000, fam="mpsc"):
     return out
 
 
+def gen_async(count, seed, first_id=4000, fam="async", with_abort=True, with_sem=False):
+    """A main thread and 1-3 future tasks: hand-written waker slots (flags), yields, joins through block_on
+    or from other futures, abort / detach at any point."""
+    rng = random.Random(f"{fam}:{seed}")
+    out = []
+    for i in range(count):
+        nf = rng.randint(1, 3)
+        n = 1 + nf
+        nflags = 2
+        awaited = set()
+        tasks = [[] for _ in range(n)]
+        parent = {c: 0 for c in range(1, n)}
+        if n >= 3 and rng.random() < 0.3:
+            parent[2] = 1
+        # future bodies
+        for c in range(1, n):
+            body = []
+            for _ in range(rng.randint(1, 3)):
+                k = rng.choice(["ayield", "await_flag", "set_flag", "load", "store", "fadd", "wake_only"] + (["acquire", "release"] if with_sem else []))
+                if k == "await_flag":
+                    free = [f for f in range(nflags) if f not in awaited]
+                    if not free:
+                        continue
+                    f = rng.choice(free)
+                    awaited.add(f)
+                    body.append(op("await_flag", o=f))
+                elif k in ("set_flag", "wake_only"):
+                    body.append(op(k, o=rng.randrange(nflags)))
+                elif k == "ayield":
+                    body.append(op("ayield"))
+                elif k in ("acquire", "release"):
+                    body.append(op(k, o=0, v=1))
+                elif k == "load":
+                    body.append(op("load", o=0))
+                else:
+                    body.append(op(k, o=0, v=rng.randrange(1, 4)))
+            tasks[c] = body
+        # spawns (parents spawn in index order at the start of their body)
+        for p_ in range(n):
+            kids = [c for c in range(1, n) if parent[c] == p_]
+            for c in reversed(kids):
+                tasks[p_].insert(0, op("spawn_future", v=c))
+        # what happens to each handle
+        main_tail = []
+        for c in range(1, n):
+            fate = rng.choice(["join", "join", "detach", "keep", "abort_join", "abort"] if with_abort else ["join", "join", "detach", "keep"])
+            owner = parent[c]
+            acts = []
+            if fate.startswith("abort"):
+                acts.append(op("abort", v=c))
+                if rng.random() < 0.3:
+                    acts.append(op("abort", v=c))
+            if fate in ("join", "abort_join"):
+                if rng.random() < 0.35:
+                    acts.append(op("try_join", v=c))      # a now_or_never style probe first
+                if owner == 0:
+                    acts += [op("bo_begin"), op("await_join", v=c), op("bo_end")]
+                else:
+                    acts.append(op("await_join", v=c))
+            elif fate == "detach":
+                acts.append(op("detach", v=c))
+            if owner == 0:
+                # main may do something before deciding
+                pre = []
+                for _ in range(rng.randint(0, 2)):
+                    k = rng.choice(["set_flag", "yield", "load", "store", "wake_only"])
+                    if k in ("set_flag", "wake_only"):
+                        pre.append(op(k, o=rng.randrange(nflags)))
+                    elif k == "yield":
+                        pre.append(op("yield"))
+                    elif k == "load":
+                        pre.append(op("load", o=0))
+                    else:
+                        pre.append(op("store", o=0, v=rng.randrange(1, 4)))
+                main_tail += pre + acts
+            else:
+                tasks[owner] += acts
+        tasks[0] += main_tail
+        # flags that are awaited but never set would deadlock every schedule: make sure main sets them at the end (mostly)
+        for f in sorted(awaited):
+            if not any(o["k"] == "set_flag" and o["o"] == f for t in tasks for o in t) or rng.random() < 0.3:
+                if rng.random() < 0.85:
+                    tasks[0].append(op("set_flag", o=f))
+        kinds = ["thread"] + ["future"] * nf
+        out.append(prog(first_id + i, fam, tasks, atomics=[0], nflags=nflags, kinds=kinds,
+                        sems=[(rng.randint(0, 1), rng.choice([0, 1]))] if with_sem else ()))
+    return out
+
+
 def gen_scope(count, seed, first_id=3500):
     """thread::scope with 1-2 scoped threads, ops inside the scope body and after it; thread-locals in
     the scoped threads (their destructors may run after the scope has returned)."""
@@ -291,6 +380,12 @@ def gen_bounds(count, seed, first_id=3000):
 
 
 def family(fam, count, seed):
+    if fam == "async":
+        return gen_async(count, seed)
+    if fam == "async_noabort":
+        return gen_async(count, seed, first_id=4500, fam="async_noabort", with_abort=False)
+    if fam == "async_sem":
+        return gen_async(count, seed, first_id=5000, fam="async_sem", with_sem=True)
     if fam == "scope":
         return gen_scope(count, seed)
     if fam == "bounds":
